@@ -74,7 +74,8 @@ pub fn make_error(kind: &ParserItemKind) -> parser::Error {
         ParserItemKind::ErrExpansion(tok) => parser::Error::from(ExpandExamplesError {
             pos: gherkin::LineCol { line: 3, col: 5 },
             name: tok.clone(),
-            path: Some(PathBuf::from(format!("/sim/{tok}.feature"))),
+            // every other expansion error comes without a path (a feature built in memory)
+            path: (tok.bytes().map(usize::from).sum::<usize>() % 2 == 0).then(|| PathBuf::from(format!("/sim/{tok}.feature"))),
         }),
         ParserItemKind::Feature(_) => unreachable!(),
     }
